@@ -53,6 +53,10 @@ ASSUMPTIONS = [
     "MultiDiscreteArray one of whose num_values equals iinfo(dtype).max + 1 (gym stores nvec in the space's dtype)",
     "a gym sample that lies outside its own gym space (gymnasium's integer Box sampler clips to dtype "
     "min+2 / max-2) is not held against the conversion",
+    "structure mismatches are limited to unambiguous ones (renamed / extra / missing field, a bare array "
+    "for a nested value); a dict handed over where an array is expected counts as a member exactly when "
+    "jnp.asarray turns it into an array of the declared shape, dtype and range (JAX maps a dict of bool "
+    "arrays to the scalar True)",
     "child names of nested specs avoid attribute names of Spec itself (name, validate, replace, ...)",
     "constructor arguments stay inside what the docstrings allow (bounds representable in dtype, "
     "min <= max, positive num_values that fit the dtype)",
